@@ -8,9 +8,9 @@ From RC.gen Require WeakCounterGen.
 Module W := WeakCounterGen.
 Local Open Scope N_scope.
 
-Notation wm := W.weak_counter_marker.
-Notation mkw := W.mk_weak_counter_marker.
-Notation wwd := W.weak_counter_cell.
+Local Notation wm := W.weak_counter_marker.
+Local Notation mkw := W.mk_weak_counter_marker.
+Local Notation wwd := W.weak_counter_cell.
 
 Definition wdecode (s : wm) : wk := wk_decode (wwd s).
 Definition wwf (s : wm) : Prop := wwd s < 65536.
